@@ -265,8 +265,43 @@ def layer_m_cases(unit, seed):
                        "policy": unit["policy"], "radii": radii, "task": "detection", "mode": "CENTERDISTANCE", "tl": TL, "ego": list(ego)}
 
 
+# ------------------------------------------------------------------------------------------------
+# Layer L: a few larger scenes (sizes beyond the exhaustively enumerated ones; fixed, not sampled)
+def layer_l_units(tier):
+    return [dict(layer="L", mode=m) for m in MODE_CLS]
+
+
+def large_scene(seed, variant):
+    jx, jy = G.jitter(seed)
+    labels_e = ["CAR", "PEDESTRIAN", "UNKNOWN", "CAR", "CAR", "PEDESTRIAN", "CAR", "UNKNOWN", "CAR", "PEDESTRIAN", "CAR", "CAR"]
+    labels_g = ["CAR", "CAR", "PEDESTRIAN", "FP", "CAR", "PEDESTRIAN", "CAR", "CAR", "PEDESTRIAN", "CAR"]
+    ne, ng = (8, 7) if variant < 2 else (12, 10)
+    gts, ests = [], []
+    for j in range(ng):
+        gx, gy = 4.0 + 3.1 * (j % 4) + jx * j, -6.0 + 4.3 * (j // 4) + jy * j
+        gts.append(dict(x=gx, y=gy, z=0.0, yaw=0.3 * j - 1.0, size=[2.0, 4.0, 1.5] if labels_g[j] != "PEDESTRIAN" else [0.7, 0.7, 1.7], label=labels_g[j], uuid="g%d" % j))
+    for i in range(ne):
+        j = i % ng
+        off = (0.35 + 0.11 * i, -0.2 + 0.07 * i) if i < ng else (1.3 + 0.05 * i, 0.9)
+        ests.append(dict(x=gts[j]["x"] + off[0], y=gts[j]["y"] + off[1], z=0.05, yaw=gts[j]["yaw"] + 0.1 * (i % 3), size=gts[j]["size"], label=labels_e[i],
+                         uuid="e%d" % i, score=round(0.97 - 0.03 * i, 3)))
+    if variant % 2:
+        ests, gts = list(reversed(ests)), list(reversed(gts))
+    return ests, gts
+
+
+def layer_l_cases(unit, seed):
+    for variant in range(4):
+        ests, gts = large_scene(seed, variant)
+        for pol in POLICIES:
+            for radii in (None, RADII_B[unit["mode"]]):
+                for task in ("detection", "fp_validation"):
+                    yield {"layer": "L", "dim": 3, "ests": ests, "gts": gts, "policy": pol, "radii": radii, "task": task, "mode": unit["mode"], "tl": TL,
+                           "ego": list(G.ego_menu(seed)[1])}
+
+
 def units(tier, seed):
-    u = layer_a_units(tier) + layer_b_units(tier) + layer_c_units(tier) + layer_m_units(tier)
+    u = layer_a_units(tier) + layer_b_units(tier) + layer_c_units(tier) + layer_m_units(tier) + layer_l_units(tier)
     # biggest units first (better load balance); order does not change the space
     return sorted(u, key=lambda x: -(x.get("ne", 2) * x.get("ng", 2) + (3 if x["layer"] == "A" and x["labels"] == "full" else 0)))
 
@@ -278,6 +313,8 @@ def cases_of(unit, seed):
         return layer_b_cases(unit, seed)
     if unit["layer"] == "M":
         return layer_m_cases(unit, seed)
+    if unit["layer"] == "L":
+        return layer_l_cases(unit, seed)
     return layer_c_cases(unit)
 
 
@@ -288,6 +325,7 @@ def bounds(tier, seed):
                           "low/high tables (two labels per side), 4x3 all 4096 low/high tables (2x2 label vectors)" if tier == "thorough" else ""),
             "layer_B": "ordered sub-lists of size <= %d from pools of 6 estimates / 6 ground truths, 4 modes" % (2 if tier == "quick" else 3),
             "layer_C": "ROI objects over two cameras, est <= 2, gt <= %d, 2 modes" % (2 if tier == "quick" else 3),
+            "layer_L": "4 fixed larger scenes (8x7 and 12x10 objects, both list orders) x 4 modes x 3 policies x radii x tasks",
             "layer_M": "sub-lists <= %d of 5 x 5 pool objects through PerceptionEvaluationManager.add_frame_result (ego and map rendering, 3 policies, radii none / per-label)" % (2 if tier == "quick" else 3),
             "policies": POLICIES, "radii": "none / biting for every label / biting for one label", "tasks": "normal and FP validation",
             "jitter": list(G.jitter(seed))}
